@@ -8,7 +8,8 @@ CONSTANTS SchemaIds,      \* subset of DOMAIN Catalogue
           RowChoices,     \* set of total row counts per row group
           MaxGroups,      \* max number of NewRowGroup cuts
           MaxBatches,     \* max write_batch calls per column per row group
-          NullMode,       \* "all" (every null pattern) | "runs" (run-structured patterns)
+          NullMode,       \* "all" (every null pattern) | "runs" (run-structured patterns) | "beat" (long columns: the
+                          \*   superposition of two square waves whose periods are picked by hash; needs Sample)
           AnyOrder,     \* TRUE: columns of a row group may be written in any order
           Sample,       \* TRUE: null patterns, batch sizes and def-level choices are not enumerated but picked by a
                         \*       deterministic hash of (Seed, replica, position in the history): one successor per state,
@@ -59,7 +60,13 @@ GCreate == /\ plan.stage = "schema"
 \* deterministic pseudo-random pick (all intermediate values < 2^31)
 Mix(a, b, c) == (((((Seed % 1000) * 7919) + (plan.r * 104729) + (a * 1299709) + (b * 15485863) + (c * 32452843)) % 2147483) * 613 + a + b + c) % 1000003
 PickFrom(S, h) == SetToSeq(S)[1 + (h % Cardinality(S))]
-PatChoices(n) == IF Sample THEN {[c \in 1..NCols |-> IF MaxDef(c) = 0 THEN [i \in 1..n |-> 0] ELSE PickFrom(Patterns(n), Mix(plan.groups, c, n))]}
+BeatLens == {1, 2, 7, 8, 9, 16, 63, 64, 65, 100, 504, 505, 1000}
+BeatPat(n, c) == LET l1 == PickFrom(BeatLens, Mix(plan.groups, c, 11))
+                     l2 == PickFrom(BeatLens, Mix(plan.groups, c, 13))
+                 IN [i \in 1..n |-> (((i - 1) \div l1) + ((i - 1) \div l2)) % 2]
+PatChoices(n) == IF Sample THEN {[c \in 1..NCols |-> IF MaxDef(c) = 0 THEN [i \in 1..n |-> 0]
+                                                       ELSE IF NullMode = "beat" THEN BeatPat(n, c)
+                                                       ELSE PickFrom(Patterns(n), Mix(plan.groups, c, n))]}
                  ELSE {p \in [1..NCols -> Patterns(n)] : \A c \in 1..NCols : MaxDef(c) = 0 => \A i \in 1..n : p[c][i] = 0}
 GBegin == /\ plan.stage = "rg" /\ wst = "open" /\ plan.groups < MaxGroups
           /\ \E n \in RowChoices :
